@@ -6,6 +6,7 @@ import DesyncModel.Tables.Push
 import DesyncModel.Tables.Wake
 import DesyncModel.Inv.ParkReach
 import DesyncModel.Inv.WakeReach
+import DesyncModel.Inv.WakeTReach
 
 namespace Desync.C06
 open Desync Gen
@@ -88,6 +89,63 @@ theorem wake_between_poll_and_park_is_remembered {s : State} (hr : ReachableNT s
 theorem wake_after_poll_is_remembered {s : State} (hr : ReachableNT s) {a p q j : Nat} (hpc : s.pcAt a = .pdRequeue p q j) :
     Reg s q j ∨ Flight s q ∨ s.qSt q = some .awokenWhileRunning :=
   (ntWake_reachable hr).wake.poll1 a q j (by rw [hpc]; rfl)
+
+/-! ### the "thread inside sync" context: I_wake -/
+
+/-- **I_wake (thread context).**  In every state reachable without polling a returned future: a queue in `WaitingForUnpark`
+has a sync caller in the park loop of `run_one_job_now` holding the suspended job `j`, and that caller's own `WakeThread`
+waker (for this queue and this caller's thread) is still registered with the event `j` awaits, or a `WakeThread` wake-up
+for this queue and this thread is on its way — in a list of wakers being fired, or about to run `WakeThread::wake`, which
+turns `WaitingForUnpark` into `Running` and unparks exactly this thread (`wake_parked`).  C06 "after it is parked" for
+the thread-inside-`sync` context; together with I_park the caller is there to receive it. -/
+theorem parked_caller_has_its_wake_up {s : State} (hr : ReachableNT s) {q : Nat} {v : JobQ} (hv : s.qs[q]? = some v)
+    (hst : v.state = .waitingForUnpark) :
+    ∃ a j, (s.pcAt a).parkedJ = some (q, j) ∧ (RegT s q j (s.threadOf a) ∨ FlightT s q (s.threadOf a)) := by
+  have hq : s.qSt q = some .waitingForUnpark := by rw [qSt_of hv, hst]
+  obtain ⟨a, ha⟩ := (parkInv_reachable hr.reachable).park q hq
+  have : ∃ j, (s.pcAt a).parkedJ = some (q, j) := by
+    cases hpc : s.pcAt a <;> rw [hpc] at ha <;> simp_all [Pc.parks, Pc.parkedJ]
+  obtain ⟨j, hj⟩ := this
+  exact ⟨a, j, hj, (wakeTInv_reachable hr).parked a q j hj hq⟩
+
+/-- **A wake-up that fires between the caller's poll and its decision to park is not lost** (thread context).  A sync caller
+that has polled job `j` of queue `q` (which registered its thread's waker) and is about to update the queue state
+(`rjPending`: the critical section of `run_one_job_now` after `Poll::Pending`) finds the waker still registered, or the
+wake-up on its way, or the queue `AwokenWhileRunning` — in which case it polls again instead of parking
+(`runOnePending .awokenWhileRunning = (.running, .continue)`). -/
+theorem thread_wake_between_poll_and_park_is_remembered {s : State} (hr : ReachableNT s) {a q j : Nat} {k : Pc}
+    (hpc : s.pcAt a = .rjPending q j k) :
+    RegT s q j (s.threadOf a) ∨ FlightT s q (s.threadOf a) ∨ s.qSt q = some .awokenWhileRunning :=
+  (wakeTInv_reachable hr).polled a q j (by rw [hpc]; rfl)
+
+/-- the premises of `parked_caller_has_its_wake_up` are satisfiable and its conclusion is not trivially true: a caller on
+thread 1 parked on the suspended `future_desync` job 0 of queue 0, its waker registered -/
+def parkedExample : State :=
+  let s0 := initState 1 1 1
+  { s0 with
+    qs := [{ state := .waitingForUnpark, jobs := [], waiters := [] }]
+    jobs := [{ q := 0, kind := .fut 0 (some 0) 0, ph := .held 0, begun := true, ended := false, reg := some (.thread 0 1) }]
+    acts := [{ thread := 1, pc := .rjPark 0 0 (.sdCheck 0 0), parent := none, child := none, woken := false, result := none, mode := .await, once := false }] }
+
+example : parkedExample.qSt 0 = some .waitingForUnpark ∧ (parkedExample.pcAt 0).parkedJ = some (0, 0) ∧
+    RegT parkedExample 0 0 (parkedExample.threadOf 0) ∧ ¬ FlightT parkedExample 0 1 ∧ ¬ RegT parkedExample 0 0 2 := by
+  refine ⟨by simp [parkedExample, State.qSt], by simp [parkedExample, State.pcAt, Pc.parkedJ], ?_, ?_, ?_⟩
+  · simp [RegT, State.regW, State.threadOf, parkedExample]
+  · rintro ⟨b, hb⟩
+    cases b with
+    | zero => simp [parkedExample, State.pcAt, Pc.wakesT] at hb
+    | succ n => simp [parkedExample, State.pcAt, Pc.wakesT] at hb
+  · simp [RegT, State.regW, parkedExample]
+
+/-- what the caller does with a remembered wake-up, and what the wake-up does to a parked caller -/
+theorem thread_context_tables :
+    runOnePending .awokenWhileRunning = (.running, .continue) ∧ runOnePending .running = (.waitingForUnpark, .park) ∧
+    wakeThread .running = .awokenWhileRunning ∧ wakeThread .waitingForUnpark = .running ∧
+    parkCheck .running = .continue ∧ parkCheck .waitingForUnpark = .park := ⟨rfl, rfl, rfl, rfl, rfl, rfl⟩
+
+/-- an activity never changes thread, so "this caller's thread" in the statements above is well defined along an execution -/
+theorem activities_keep_their_thread {s s' : State} {a : Nat} {o : Obs} (hs : stepAct s a = some (s', o)) (b : Nat)
+    (hb : b < s.acts.length) : s'.threadOf b = s.threadOf b := threadOf_stepAct hs b hb
 
 /-- the executions the theorems above quantify over never enter the task-context code -/
 theorem no_task_context_without_polling {s : State} (hr : ReachableNT s) (b : Nat) : (s.pcAt b).noTask = true :=
